@@ -984,11 +984,39 @@ static int run_widekd() {
   return 0;
 }
 
+// Nested metadata in which every level announces about as many sub-metadata as the stream has bytes left (each single count passes the decoder's
+// "not more than the remaining input" test): header of a sequential cloud with the metadata flag, no attribute metadata, root and L levels of
+// (name length 0, 0 entries, varint R sub-metadata), P zero bytes.  Probed with the allocation accounting.
+static int run_fatnest() {
+  Shared sh{}; g_sh = &sh;
+  verif::DeclareSink() = on_declare;
+#ifdef VERIF_ALLOC_SHIM
+  const bool want_allocs = true;
+#else
+  const bool want_allocs = false;
+#endif
+  static const long cases[][3] = {{4000, 990, 5000}, {19000, 900, 20000}, {190000, 900, 200000}, {900, 50, 1000}, {60000, 3, 61000}};
+  for (auto &cs : cases) {
+    EncoderBuffer b;
+    b.Encode("DRACO", 5);
+    b.Encode((uint8_t)2); b.Encode((uint8_t)2); b.Encode((uint8_t)0); b.Encode((uint8_t)0); b.Encode((uint16_t)0x8000);
+    EncodeVarint<uint32_t>(0, &b);
+    EncodeVarint<uint32_t>(0, &b); EncodeVarint<uint32_t>((uint32_t)cs[0], &b);
+    for (long l = 0; l < cs[1]; ++l) { b.Encode((uint8_t)0); EncodeVarint<uint32_t>(0, &b); EncodeVarint<uint32_t>((uint32_t)cs[0], &b); }
+    std::vector<char> bytes(b.data(), b.data() + b.size());
+    bytes.insert(bytes.end(), (size_t)cs[2], (char)0);
+    g_emitted_ok = 0;
+    probe("fat-nest:" + std::to_string(cs[0]) + "x" + std::to_string(cs[1]), bytes, Fault{8, 0, 0, 0}, 0, want_allocs, -2);
+  }
+  return 0;
+}
+
 int main(int argc, char **argv) {
   if (getenv("VERIF_RECORDS")) { out.f = fopen(getenv("VERIF_RECORDS"), "w"); if (!out.f) return 2; }
   if (argc >= 7 && !strcmp(argv[1], "sweep")) return run_sweep(argv[2], atoi(argv[3]), atoi(argv[4]), atoi(argv[5]), strtoull(argv[6], 0, 10));
   if (argc >= 4 && !strcmp(argv[1], "one")) return run_one(argv[2], argv[3]);
   if (argc >= 2 && !strcmp(argv[1], "widekd")) return run_widekd();
+  if (argc >= 2 && !strcmp(argv[1], "fatnest")) return run_fatnest();
   if (argc >= 5 && !strcmp(argv[1], "hostile")) return run_hostile(argv[2], atoi(argv[3]), atoi(argv[4]));
   if (argc >= 3 && !strcmp(argv[1], "hostile1")) return run_hostile1(argv[2]);
   if (argc >= 3 && !strcmp(argv[1], "nest")) return run_nest(argv[2]);
